@@ -13,6 +13,7 @@ def run(tier, seed):
     run_mutants(v, PROP, [("Q1", "unlock_ignores_dirty")])
     dqstate_conformance(v, PROP)
     root_queue(v, tier, seed)
+    retarget_window(v, tier, seed)
     n = 1 if tier == "quick" else 6
     runs = []
     for k in range(n):
@@ -22,6 +23,46 @@ def run(tier, seed):
             runs += [dict(W=1, pp=1, susp=1, execs=6, ops=30, perturb=2)]
     drive(v, PROP, seed, runs, tier)
     return v.finish()
+
+def retarget_window(v, tier, seed):
+    """Retarget.tla: a synchronous call through a two-level hierarchy racing dispatch_set_target_queue() of the top
+    queue gives back exactly what it locked (finding F4, fixed: the pinned code read the target after unlocking).
+    TLC checks both lower-queue kinds and refutes the 'target read after unlock' mutant; drv_retarget steers the real
+    library into the spec's counterexample schedule (deferred and inline retarget, concurrent and serial lower queues)
+    and requires that barriers submitted to the old and the new target still run and their state words are idle."""
+    d = rundir(PROP)
+    base = open(os.path.join(SPEC, "cfg", "Retarget.cfg")).read()
+    for ls in ("FALSE", "TRUE"):
+        for mut in ("none", "target_read_after_unlock"):
+            cfg = os.path.join(d, "Retarget_%s_%s.cfg" % (ls, mut))
+            open(cfg, "w").write(base.replace("LowerSerial = FALSE", "LowerSerial = " + ls).replace('Mut = "none"', 'Mut = "%s"' % mut))
+            r = tlc_must_pass("Retarget/%s/%s" % (ls, mut), "Retarget.tla", cfg, timeout=600, workers=2, metaname="C01_retarget_%s_%s" % (ls, mut))
+            if mut == "none":
+                v.add_model("Retarget/LowerSerial=%s" % ls, r)
+                if r.violated:
+                    v.violation("Retarget.tla (LowerSerial=%s) violates %s" % (ls, r.violated), save_replay(PROP, "Retarget_%s.tlc.out" % ls, r.out))
+            elif not r.violated:
+                raise Broken("spec mutant target_read_after_unlock (LowerSerial=%s) is not refuted" % ls)
+            else:
+                v.notes.setdefault("spec_mutants_refuted", []).append({"mutant": mut, "config": "Retarget/LowerSerial=" + ls, "by": r.violated, "states": r.distinct})
+    drv = build_driver("drv_retarget")
+    tr = os.path.join(d, "retarget.ndjson")
+    rounds = 8 if tier == "quick" else 40
+    rc, out, err = sh([drv, tr, str(seed * 100 + 77), str(rounds)], timeout=900)
+    m = re.search(r"rounds=(\d+) windows_hit=(\d+)", err)
+    if rc in (2, 70, 71):
+        fails = re.findall(r"ORACLE-FAIL C01 (.*)", err)
+        what = {2: "API oracle", 70: "crash inside libdispatch", 71: "hang"}[rc]
+        p = save_replay(PROP, "retarget_fail.ndjson", src=tr) if os.path.exists(tr) else tr
+        v.violation("%s in the sync-completion vs dispatch_set_target_queue window: %s" % (what, "; ".join(fails[:3]) or err.strip()[-300:]), p)
+        return
+    if rc != 0 or not m:
+        raise Broken("drv_retarget failed rc=%d: %s" % (rc, err[-500:]))
+    v.traces += 1
+    v.notes["retarget_windows_hit"] = "%s of %s rounds" % (m.group(2), m.group(1))
+    if int(m.group(2)) == 0:
+        raise Broken("drv_retarget never reached the window (steering ineffective): %s" % err[-300:])
+
 
 def root_queue(v, tier, seed):
     """Root.tla: the pthread-pool root queue delivers what Lane.tla's abstract bag assumes, including the
